@@ -6,7 +6,7 @@ Core Lean only (no Mathlib): this file is compiled into the correspondence drive
 
 Model ids are natural numbers: the model handed to the `n`-th call of `stop`.  `none` for the
 best loss stands for the code's initial `jnp.inf`; this `Option`-shaped machine is over ordinary numbers.
-NaN and the infinities are covered by the float-shaped machine (`FV`, `pStepF`) at the end of the file.
+NaN and both infinities are covered by the float-shaped machine (`FV`, `pStepF`) at the end of the file.
 -/
 namespace GinjaxVerif.C19
 
@@ -157,7 +157,7 @@ The code keeps `best_*_loss` as a float initialised to `jnp.inf` and tests
 carrier `Q` (no rounding, no overflow): NaN, the two infinities and the finite values.  The
 machine below is the code as it stands, over `FV Q`; `Properties/C19NaN.lean` proves that on
 finite losses it is the `Option`-shaped machine above (`none` ↔ `pinf`, `some b` ↔ `fin b`), and
-characterises it on histories that contain NaN / +inf. -/
+characterises it on histories over the full alphabet {finite, NaN, +inf, -inf}. -/
 
 /-- IEEE-like values over an exact carrier. -/
 inductive FV (Q : Type) where
@@ -258,8 +258,13 @@ def trainLoopF {Q} [LT Q] [DecidableLT Q] [Sub Q] (patience : Nat) (delta : FV Q
     (loss : Nat → FV Q) (fuel : Nat) : Option (Nat × Option Nat) :=
   pLoopF patience delta loss fuel (FState.init (some 0)) 0
 
-/-! #### Spec on a history with non-finite entries (newest first): a NaN or +inf loss never
-improves; it is skipped for "best" and counted for "trailing". -/
+/-! #### Spec on a history over the FULL alphabet {finite, NaN, +inf, -inf} (newest first).
+
+* a NaN or +inf loss never improves; it is skipped for "best" and counted for "trailing";
+* a `-inf` loss improves on every tracked best except `-inf` itself (`-inf < best - min_delta` holds
+  for `best` finite or `+inf`; `x < -inf - min_delta = -inf` holds for no `x`): the FIRST `-inf` of a
+  history is an improvement, and after it nothing ever improves again — neither a finite loss nor
+  another `-inf`. -/
 
 /-- the finite losses of a history, in the same order -/
 def finPart {Q} : List (FV Q) → List Q
@@ -267,15 +272,33 @@ def finPart {Q} : List (FV Q) → List Q
   | .fin q :: past => q :: finPart past
   | _ :: past => finPart past
 
-/-- does the newest loss `x` improve on the best FINITE loss tracked over `past`? -/
+/-- has a `-inf` loss been seen? -/
+def hasNinf {Q} : List (FV Q) → Bool
+  | [] => false
+  | .ninf :: _ => true
+  | _ :: past => hasNinf past
+
+/-- `none` (nothing tracked yet) is the code's `jnp.inf`. -/
+def toFV {Q} : Option Q → FV Q
+  | none => .pinf
+  | some b => .fin b
+
+/-- does the newest loss `x` improve on the best loss tracked over `past`?  Finite: no `-inf` so far
+and it improves on the best FINITE loss; `-inf`: no `-inf` so far; NaN / +inf: never. -/
 def improvesF {Q} [LT Q] [DecidableLT Q] [Sub Q] (delta : Q) (x : FV Q) (past : List (FV Q)) : Bool :=
   match x with
-  | .fin q => improves delta q (bestOf delta (finPart past))
+  | .fin q => !hasNinf past && improves delta q (bestOf delta (finPart past))
+  | .ninf => !hasNinf past
   | _ => false
 
-/-- tracked best: the tracked best of the finite sub-history -/
+/-- tracked best of the finite sub-history -/
 def bestOfF {Q} [LT Q] [DecidableLT Q] [Sub Q] (delta : Q) (h : List (FV Q)) : Option Q :=
   bestOf delta (finPart h)
+
+/-- tracked best as the code holds it (a float): `-inf` once a `-inf` loss has been seen, otherwise
+the tracked best of the finite sub-history (`+inf` if there is none) -/
+def bestFV {Q} [LT Q] [DecidableLT Q] [Sub Q] (delta : Q) (h : List (FV Q)) : FV Q :=
+  if hasNinf h then .ninf else toFV (bestOfF delta h)
 
 /-- consecutive non-improving epochs at the end, non-finite epochs counted -/
 def trailingF {Q} [LT Q] [DecidableLT Q] [Sub Q] (delta : Q) : List (FV Q) → Nat
